@@ -152,6 +152,16 @@ def sampling(tier, rng, rep):
             M0 = p.origin_to()
             if not np.all(np.abs((M0 @ h.Point.get_origin(n)).coords("klein") - kp) <= 1e-7):
                 rep.fail("origin_to_hits_point", "", inp)
+            # "the isometry built from ..." is an isometry: it moves a third point r without changing its distances to the
+            # points whose images the statement fixes (origin -> p, base tangent -> tv, tv -> tv2), in every dimension
+            J = spec.J(n + 1)
+            o = h.Point.get_origin(n)
+            for nm, Mi, (src, dst) in (("origin_to", M0, (o, p)), ("tangent_origin_to", tv.origin_to(), (o, p)), ("isometry_to", M, (p, q))):
+                mat = Mi.proj_data
+                if not np.all(np.abs(mat @ J @ mat.T - J) <= 1e-7 * max(1.0, np.max(np.abs(mat)) ** 2)):
+                    rep.fail("constructed_map_is_an_isometry", f"{nm}: max |M J M^T - J| = {np.max(np.abs(mat @ J @ mat.T - J)):.2e}", inp)
+                elif not (abs((Mi @ r).distance(dst) - r.distance(src)) <= 1e-6 * (1 + r.distance(src))):
+                    rep.fail("constructed_map_is_an_isometry", f"{nm}: d(M r, M src) != d(r, src)", inp)
             return A
         A = rep.attempt("constructions_run", inp, body)
         rep.case(key=("geo", t), nontrivial=(n >= 3 or (A is not None and A > np.pi / 2)), sample=inp if t == 0 else None)
